@@ -205,16 +205,33 @@ def helper_summary(g):
             keys["p%d" % p["did"]] = pi
         elif "&" in t and bits_of(t) == 64:
             keys[p["did"]] = pi
+        elif bits_of(t) == 64:
+            keys[p["did"]] = pi          # by value: what holds for the parameter at `return true` holds for the caller's argument
     if not keys:
         return {}
     m = analysis(g)
     out = None
     for b, idx, r in g.return_sites():
-        if g.e(r).get("cv") != 1:
-            continue
+        rx = g.e(r)
+        val = rx.get("val")
+        vx = g.e(g.strip(val)) if val is not None else None
+        cvr = rx.get("cv") if rx.get("cv") is not None else (vx.get("cv") if vx is not None and vx["k"] in ("bool", "int") else None)
+        if cvr == 0:
+            continue                      # `return false`
         st = m.before(r)
         if st is None:
             continue
+        st = set(st)
+        if cvr is None and val is not None:
+            # `return <condition>`: the helper answers true only when the condition holds
+            stack = [val]
+            while stack:
+                t_ = g.strip(stack.pop())
+                tx = g.e(t_)
+                if tx is not None and tx["k"] == "binop" and tx["op"] == "&&":
+                    stack += [tx["lhs"], tx["rhs"]]
+                    continue
+                st |= set(guard_facts(g, t_, True))
         here = {}
         for f in st:
             if f[1] in keys and f[0] == "ranged":
